@@ -14,6 +14,7 @@ use log::info;
 use message::InboundIn;
 use message::OutboundIn;
 use octo_squirrel::codec::BytesCodec;
+use octo_squirrel::codec::DatagramCodec;
 use octo_squirrel::codec::QuicStream;
 use octo_squirrel::codec::WebSocketFramed;
 use octo_squirrel::protocol::address::Address;
@@ -186,7 +187,7 @@ where
     Si: Sink<OutboundIn, Error = anyhow::Error> + Unpin,
     St: Stream<Item = Result<InboundIn, anyhow::Error>> + Unpin,
 {
-    let (outbound_sink, outbound_stream) = UdpFramed::new(outbound, BytesCodec).split();
+    let (outbound_sink, outbound_stream) = UdpFramed::new(outbound, DatagramCodec::default()).split();
     relay_bidirectional(inbound_sink, inbound_stream, outbound_sink, outbound_stream, first).await
 }
 
